@@ -77,7 +77,7 @@ Proof. vm_compute. reflexivity. Qed.
 (* the lost node hangs off the free node *)
 Lemma wit_rec_final :
   let s := wit_run pol_code wit_nodes2 wit_rec_progs wit_rec_grants in
-  flist s = [0; 1; 2]%nat /\ fs_free s = [3]%nat /\ fnext (fs_heap s) 3 = Some 4%nat /\ fkey (fs_heap s) 4 = 2.
+  flist s = [0; 1; 2]%nat /\ ffree s = [Some 3]%nat /\ fnext (fs_heap s) 3 = Some 4%nat /\ fkey (fs_heap s) 4 = 2.
 Proof. vm_compute. repeat split; reflexivity. Qed.
 
 (* from a computed witness to the statement of the refutation theorems *)
